@@ -11,6 +11,7 @@ CONSTANTS
   MaxUDP = 48
   FrameMode = "checked"
   PtrMode = "bounded"
+  DecoderMode = "pure"
   NonceMode = "static"
   ReqLens <- Upto17
   RespLens <- Upto17
